@@ -216,6 +216,10 @@ pub enum FaultKind {
     /// is idle again) the terminal closes the connection: a clean loss between two exchanges,
     /// which the client can only notice when it next uses the connection.
     CloseIdle,
+    /// Instead of the frame, the client's next read fails once with a *transient* error kind
+    /// (0 = EINTR, 1 = EAGAIN, 2 = ETIMEDOUT); nothing more comes on this connection. A transport
+    /// error all the same: the connection is not to be used again.
+    ReadErr(u8),
 }
 
 #[derive(Clone, Debug, PartialEq, Eq, Serialize, Deserialize)]
@@ -623,6 +627,16 @@ impl PtConn {
                         self.apply_effect(&eff);
                         io.release_after(delay, &e.frame);
                         io.fail_writes();
+                        return false;
+                    }
+                    FaultKind::ReadErr(k) => {
+                        fire(&mut pt, kind);
+                        io.fail_read_once(match k % 3 {
+                            0 => std::io::ErrorKind::Interrupted,
+                            1 => std::io::ErrorKind::WouldBlock,
+                            _ => std::io::ErrorKind::TimedOut,
+                        });
+                        self.silent = true;
                         return false;
                     }
                     FaultKind::IdentityAbort(code) => {
